@@ -2,6 +2,7 @@
 the real processor's finished tables as observations, and the TLC run that judges them."""
 import json
 import os
+import re
 from . import common
 
 
@@ -27,9 +28,9 @@ def model_from_dbdump(d, y0, y1, only=None, ylast=None):
     return {'zones': zones, 'policies': pols, 'y0': y0, 'y1': y1, 'ylast': ylast if ylast is not None else y1}
 
 
-def impl_tables(pairdrv_exe, nz, y0, y1, chunk=25):
+def impl_tables(pairdrv_exe, nz, y0, y1, chunk=25, mode='tables'):
     def job(rng):
-        rc, out, err, _ = common.run_cmd([pairdrv_exe, 'tables', str(rng[0]), str(rng[1]), str(y0), str(y1)], timeout=3000)
+        rc, out, err, _ = common.run_cmd([pairdrv_exe, mode, str(rng[0]), str(rng[1]), str(y0), str(y1)], timeout=3000)
         return rng, rc, out, err
     obs = {}
     for rng, rc, out, err in common.tmap(job, [(i, min(i + chunk, nz)) for i in range(0, nz, chunk)]):
@@ -42,12 +43,17 @@ def impl_tables(pairdrv_exe, nz, y0, y1, chunk=25):
     return obs
 
 
-def run(model, obs, work, tag='', timeout=3000):
-    mp = os.path.join(work, 'extproc_model%s.json' % tag)
-    op = os.path.join(work, 'extproc_obs%s.json' % tag)
+def run(model, obs, work, tag='', timeout=3000, which='ExtProc', invariants=None):
+    mp = os.path.join(work, '%s_model%s.json' % (which, tag))
+    op = os.path.join(work, '%s_obs%s.json' % (which, tag))
     json.dump(model, open(mp, 'w'))
     json.dump(dict(obs, __none__={}), open(op, 'w'))
-    res = common.run_tlc('ExtProc_MC', 'ExtProc_MC.cfg', env={'EXTPROC_MODEL': mp, 'EXTPROC_OBS': op}, timeout=timeout)
+    cfg = which + '_MC.cfg'
+    if invariants is not None:
+        # a chosen subset of the design invariants (binding and output are always on)
+        cfg = os.path.join(work, '%s_MC%s.cfg' % (which, tag))
+        open(cfg, 'w').write('SPECIFICATION Spec\n' + ''.join('INVARIANT %s\n' % i for i in list(invariants) + ['Judge', 'Done'] + (['Hazards'] if which == 'ExtProc' else [])) + 'CHECK_DEADLOCK FALSE\n')
+    res = common.run_tlc(which + '_MC', cfg, env={which.upper() + '_MODEL': mp, which.upper() + '_OBS': op}, timeout=timeout)
     bad, pieces, stale = [], {}, []
     for v in common.tlc_prints(res.out):
         if isinstance(v, dict):
@@ -60,38 +66,48 @@ def run(model, obs, work, tag='', timeout=3000):
     return res, bad, pieces, stale
 
 
-def check_shipped(chk, label='zonedbx', y0=2000, y1=2049, ylast=2050):
-    """ExtProc.tla on the shipped extended database: (1) the real processor's finished table, match count and pool high-water
-    mark equal the model's for every zone x year; (2) the model's own invariants; (3) the model's step function is accepted
-    by TzSem.tla on the recorded source lines. Returns coverage numbers."""
-    from . import tzconf, dbsource, tzparse
+SPECS = {'extended': ('ExtProc', 'tables', 'zonedbx', 'ExtendedZoneProcessor::init'), 'basic': ('BasicProc', 'btables', 'zonedb', 'BasicZoneProcessor::init')}
+
+
+def check_shipped(chk, scope='extended', y0=2000, y1=2049, ylast=2050):
+    """ExtProc.tla / BasicProc.tla on the shipped database: (1) the real processor's finished table (and match count, pool
+    high-water mark / dropped transitions) equals the model's for every zone x year; (2) the model's own invariants; (3) the
+    model's step function is accepted by TzSem.tla on the recorded source lines."""
+    from . import dbsource
+    which, mode, dbdir, _ = SPECS[scope]
     dd = common.build_binary('dbdump', ['dbdump.cpp'], 'opt')
     pd = common.build_binary('pairdrv', ['pairdrv.cpp'], 'opt')
-    d = dump_tables(dd)
-    work = common.scratch('%s-extproc-%s' % (chk.pid, label))
-    lines, _links = dbsource.reconstruct(os.path.join(common.REPO, 'src/ace_time/zonedbx'))
-    return check_tables(chk, label, d, impl_tables(pd, len(d['zones']), y0 - 1, ylast), lines, work, y0, y1, ylast)
+    d = dump_tables(dd, scope)
+    work = common.scratch('%s-%s-%s' % (chk.pid, which, dbdir))
+    lines, _links = dbsource.reconstruct(os.path.join(common.REPO, 'src/ace_time', dbdir))
+    return check_tables(chk, dbdir, d, impl_tables(pd, len(d['zones']), y0 - 1, ylast, mode=mode), lines, work, y0, y1, ylast, scope=scope)
 
 
-def check_tables(chk, label, d, obs, lines, work, y0=2000, y1=2049, ylast=2050, known_bad=()):
+def check_tables(chk, label, d, obs, lines, work, y0=2000, y1=2049, ylast=2050, known_bad=(), scope='extended', invariants=None):
     from . import tzconf, tzparse
+    which, _mode, _dbdir, fn = SPECS[scope]
     model = model_from_dbdump(d, y0, y1, ylast=ylast)
-    res, bad, pieces, stale = run(model, obs, work)
+    res, bad, pieces, stale = run(model, obs, work, which=which, tag='-' + re.sub(r'[^A-Za-z0-9]', '_', label), invariants=invariants)
     if not res.ok:
         for inv in res.violated:
-            chk.violation('%s:extproc:%s' % (label, inv), 'TLC: invariant %s of ExtProc.tla fails on the tables of %s: %s' % (inv, label, res.out[-1500:]), {'invariant': inv})
+            m = re.search(r'/\\ z = (\d+)', res.out)
+            my = re.search(r'/\\ y = (\d+)', res.out)
+            zname = model['zones'][int(m.group(1)) - 1]['name'] if m else '?'
+            chk.violation('%s:%s:%s:%s' % (label, which, inv, zname), 'TLC: invariant %s of %s.tla fails on the tables of %s (zone %s, year %s)' % (inv, which, label, zname, my.group(1) if my else '?'),
+                          {'invariant': inv, 'zone': zname, 'tlc': res.out[-2500:]})
         if not res.violated:
-            raise common.MachineryError('ExtProc_MC failed: ' + res.out[-1500:])
+            raise common.MachineryError('%s_MC failed: %s' % (which, res.out[-1500:]))
     names = [z['name'] for z in model['zones']]
     if res.ok and set(pieces) != set(names):
-        raise common.MachineryError('ExtProc_MC finished %d zones of %d' % (len(pieces), len(names)))
+        raise common.MachineryError('%s_MC finished %d zones of %d' % (which, len(pieces), len(names)))
     for b in bad:
         m, i = b['model'], b['impl']
-        what = 'filled' if bool(i['filled']) != bool(m['filled']) else ('number of matches' if i['nm'] != m['nm'] else ('pool high-water mark' if i['hw'] != m['hw'] else 'rows'))
+        keys = [k for k in ('filled', 'nm', 'hw', 'dropped') if k in m and int(m[k]) != int(i[k])]
         k = next((j for j in range(min(len(m['rows']), len(i['rows']))) if m['rows'][j] != i['rows'][j]), min(len(m['rows']), len(i['rows'])))
         chk.violation('%s:%s:%d:table' % (label, b['bad'], b['year']),
-                      'ExtendedZoneProcessor::init(%d) of %s: %s differ from ExtProc.tla (model: nm=%s hw=%s row %d=%s; real: nm=%s hw=%s row %d=%s)' % (
-                          b['year'], b['bad'], what, m['nm'], m['hw'], k, m['rows'][k] if k < len(m['rows']) else None, i['nm'], i['hw'], k, i['rows'][k] if k < len(i['rows']) else None), b)
+                      '%s(%d) of %s differs from %s.tla in %s (model: %s row %d=%s; real: %s row %d=%s)' % (
+                          fn, b['year'], b['bad'], which, ', '.join(keys) or 'the rows', {q: m[q] for q in m if q != 'rows'}, k, m['rows'][k] if k < len(m['rows']) else None,
+                          {q: i[q] for q in i if q != 'rows'}, k, i['rows'][k] if k < len(i['rows']) else None), b)
     for zname, yr in stale:
         chk.violation('%s:%s:%d:stale-active-flag' % (label, zname, yr), 'ExtProc.tla: in init(%d) of %s a candidate transition reaches addActiveCandidatesToActivePool with an `active` flag no branch assigned (answer depends on what the pooled object held before)' % (yr, zname), {'zone': zname, 'year': yr})
     nsem = 0
@@ -109,8 +125,9 @@ def check_tables(chk, label, d, obs, lines, work, y0=2000, y1=2049, ylast=2050, 
                 raise common.MachineryError('TzSem gave no verdict for %s' % n)
             nsem += 1
             if not v['impl']['ok'] and n not in known_bad:
-                chk.violation('%s:%s:algorithm-vs-semantics' % (label, n), 'the step function ExtProc.tla computes from the compiled tables of %s differs from TzSem.tla on the source lines at piece %s: algorithm=%s semantics=%s' % (
-                    n, v['impl']['at'], v['impl']['obs'], v['impl']['spec']), {'zone': n})
+                chk.violation('%s:%s:algorithm-vs-semantics' % (label, n), 'the step function %s.tla computes from the compiled tables of %s differs from TzSem.tla on the source lines at piece %s: algorithm=%s semantics=%s' % (
+                    which, n, v['impl']['at'], v['impl']['obs'], v['impl']['spec']), {'zone': n})
     nty = sum(len(v) for v in obs.values())
-    chk.add(**{'extproc_states': res.distinct, 'extproc_tables_bound_to_real_processor': nty, 'extproc_zones_judged_by_tzsem': nsem})
+    lw = which.lower()
+    chk.add(**{lw + '_states': res.distinct, lw + '_tables_bound_to_real_processor': nty, lw + '_zones_judged_by_tzsem': nsem})
     return res, bad, pieces
